@@ -667,7 +667,9 @@ func (t *Tree) Compile(file string, args []string, out io.Writer) (err error) {
 			t.StructName = n.String()
 			t.StructVariables = n.Front().String()
 		case TypeRule:
-			if _, ok := t.Rules[n.String()]; !ok {
+			if first, ok := t.Rules[n.String()]; ok && first != n {
+				return fmt.Errorf("rule '%v' defined more than once", n)
+			} else if !ok {
 				expression := n.Front()
 				cp := expression.Copy()
 				expression.Init()
